@@ -252,7 +252,9 @@ int main(int argc, char **argv)
 	if (faulted && first_bad(BAD_FAULT, &s)) report(s, BAD_FAULT);
 
 	/* thorough: the full-period consequence, checked directly (one sequential walk, one worker) */
+#ifndef C17_NO_ORBIT	/* build-variant parts repeat the step sweep only */
 	if (vx_thorough() && vx_mine(NBLOCKS)) orbit();
+#endif
 
 	vx_finish();
 	return 0;
